@@ -251,6 +251,61 @@ func c36Cases(ref JobResult) []chainCase {
 			}
 		}
 	}
+	// parameter names that extend another parameter's name (pos/RelaysToTokensMultiplier / ...MultiplierMap,
+	// pos/ServicerStakeFloorMultiplier / ...MultiplierExponent): owning the shorter one gives no right over the longer one
+	if aclRaw := params["gov/acl"]; aclRaw != "" {
+		for _, pair := range [][2]string{{"pos/RelaysToTokensMultiplier", "pos/RelaysToTokensMultiplierMap"}, {"pos/ServicerStakeFloorMultiplier", "pos/ServicerStakeFloorMultiplierExponent"}} {
+			short, long := pair[0], pair[1]
+			if params[long] == "" {
+				continue
+			}
+			var acl struct {
+				Type  string                   `json:"type"`
+				Value []map[string]interface{} `json:"value"`
+			}
+			if err := json.Unmarshal([]byte(aclRaw), &acl); err != nil {
+				continue
+			}
+			ownerOfLong := ""
+			for _, e := range acl.Value {
+				if e["acl_key"] == short {
+					e["address"] = caddr("A2").String()
+				}
+				if e["acl_key"] == long {
+					for _, role := range []string{"G", "D", "A2"} {
+						if strings.EqualFold(caddr(role).String(), fmt.Sprint(e["address"])) {
+							ownerOfLong = role
+						}
+					}
+				}
+			}
+			if ownerOfLong == "A2" {
+				continue
+			}
+			if ownerOfLong == "" { // not in the ACL of this genesis: the hand-over also enters it, owned by G
+				acl.Value = append(acl.Value, map[string]interface{}{"acl_key": long, "address": caddr("G").String()})
+				ownerOfLong = "G"
+			}
+			nv, _ := json.Marshal(acl)
+			handover := tx("gov_param", "G", "from", "G", "key", "gov/acl", "value", string(nv))
+			for _, signer := range []string{"A2", ownerOfLong} {
+				signer, long, short := signer, long, short
+				ch := tx("gov_param", signer, "from", signer, "key", long, "value", params[long])
+				cases = append(cases, chainCase{Name: fmt.Sprintf("acl-prefix-names/%s/by-%s", long, signer), Class: "acl-prefix-" + boolStr(signer == ownerOfLong, "owner", "other"), Env: env, Want: []string{"balances"},
+					Ref: []BlockSpec{blk(handover), {}}, Subject: []BlockSpec{blk(handover), blk(ch)},
+					Oracle: func(r, s JobResult) (string, string) {
+						if r.Blocks[0].Txs[0].Code != 0 {
+							return "harness:acl", fmt.Sprintf("the ACL change of the scenario was refused (code %d)", r.Blocks[0].Txs[0].Code)
+						}
+						desc := fmt.Sprintf("A2 owns %s, %s owns %s; %s asks to set %s (to its current value): result code %d", short, ownerOfLong, long, signer, long, lastTx(s).Code)
+						if (lastTx(s).Code == 0) != (signer == ownerOfLong) {
+							return "acl-owner-of-similarly-named-parameter", desc
+						}
+						return "", ""
+					}})
+			}
+		}
+	}
 	// a message that NAMES the owner as sender but is signed by somebody else (the recipient, an unrelated key):
 	// the DAO balance and every balance except possibly the signer's own fee must stay as they are
 	for _, action := range []string{"dao_transfer", "dao_burn"} {
@@ -302,6 +357,7 @@ func c37Cases() []chainCase {
 		{"upgrade-A", tx("gov_upgrade", "G", "from", "G", "height", h(50), "version", "0.11.5", "features", "FEATA:"+h(20)+"+FEATB:"+h(30))},
 		{"feature-only-C", tx("gov_upgrade", "G", "from", "G", "height", "1", "version", "FEATURE", "features", "FEATC:"+h(25))},
 		{"feature-only-reschedule-A", tx("gov_upgrade", "G", "from", "G", "height", "1", "version", "FEATURE", "features", "FEATA:"+h(40))},
+		{"feature-only-reschedule-A-to-a-six-digit-height", tx("gov_upgrade", "G", "from", "G", "height", "1", "version", "FEATURE", "features", "FEATA:"+h(20000))},
 		{"upgrade-B-dups", tx("gov_upgrade", "G", "from", "G", "height", h(60), "version", "0.12.0", "features", "FEATB:"+h(30)+"+FEATB:"+h(35)+"+AAA:"+h(5))},
 		{"upgrade-plain-no-features", tx("gov_upgrade", "G", "from", "G", "height", h(65), "version", "0.12.1", "features", "")},
 		{"by-stranger", tx("gov_upgrade", "A2", "from", "A2", "height", h(70), "version", "0.12.0", "features", "EVIL:"+h(1))},
@@ -426,7 +482,10 @@ func c28Cases() []chainCase {
 		blocks []BlockSpec
 		staked int
 	}
-	pres := []pre{{"one-app", nil, 1}, {"full", []BlockSpec{blk(tx("app_stake", "P2", "value", "1000000"))}, 2}, {"none", []BlockSpec{blk(tx("app_unstake", "P1")), {}, {}}, 0},
+	pres := []pre{{"one-app", nil, 1}, {"full", []BlockSpec{blk(tx("app_stake", "P2", "value", "1000000"))}, 2},
+		// full, and then one of the staked applications edits its stake without changing its power (chains only / a few uPOKT more)
+		{"full-after-chains-only-edit", []BlockSpec{blk(tx("app_stake", "P2", "value", "1000000")), blk(tx("app_stake", "P1", "value", "2000000", "chains", "0001+0002"))}, 2},
+		{"full-after-small-bump", []BlockSpec{blk(tx("app_stake", "P2", "value", "1000000")), blk(tx("app_stake", "P2", "value", "1000007"))}, 2}, {"none", []BlockSpec{blk(tx("app_unstake", "P1")), {}, {}}, 0},
 		// governance moved the allowance parameters: the allowance of a new stake follows the parameters in force
 		{"base-relays-tripled", []BlockSpec{blk(tx("gov_param", "G", "from", "G", "key", "application/BaseRelaysPerPOKT", "value", `"300"`))}, 1},
 		{"stability-adjusted", []BlockSpec{blk(tx("gov_param", "G", "from", "G", "key", "application/StabilityAdjustment", "value", `"7"`))}, 1}}
